@@ -84,12 +84,12 @@ def iterItems : V → Option (List V)
     expression, the environment of that body -/
 inductive Clo where
   | none
-  | mk (h : Name) (q : Q) (env : Clo)
+  | mk (h : Option Name) (q : Q) (env : Clo)
   deriving Inhabited
 
 /-- fuel decreases at every constructor; `g` = the function whose body (or whose argument
-    expression) is being evaluated, `ρ` = what its parameter is bound to -/
-def eval (defs : Name → Q) : Nat → Name → Clo → Q → V → Res
+    expression) is being evaluated (`none`: the main query), `ρ` = what its parameter is bound to -/
+def eval (defs : Name → Q) : Nat → Option Name → Clo → Q → V → Res
   | 0, _, _, _, _ => ⟨[], .diverge⟩
   | _+1, _, _, .id, v => ⟨[v], .done⟩
   | _+1, _, _, .const c, _ => ⟨[c], .done⟩
@@ -115,7 +115,7 @@ def eval (defs : Name → Q) : Nat → Name → Clo → Q → V → Res
     match ρ with
     | .mk h q ρ' => eval defs n h ρ' q v
     | .none => ⟨[], .err .noParam⟩
-  | n+1, g, ρ, .call1 f a, v => eval defs n f (.mk g a ρ) (defs f) v
+  | n+1, g, ρ, .call1 f a, v => eval defs n (some f) (.mk g a ρ) (defs f) v
 
 /-! ## bytecode (code.go) -/
 
@@ -130,9 +130,14 @@ abbrev Code := List Instr
 
 /-! ## compiler (compiler.go, optimisations off) -/
 
+/-- the scope id of a function (the pc of its `opscope`); the main query's scope is at pc 0 -/
+def scopeOf (entry : Name → Nat) : Option Name → Nat
+  | none => 0
+  | some f => entry f
+
 /-- `e` = pc of the `opscope` of the enclosing scope (its id); `p` = pc of the first emitted
     instruction; `g` = the enclosing named function (whose parameter `param` refers to) -/
-def compile (entry : Name → Nat) (g : Name) (e p : Nat) : Q → List Instr
+def compile (entry : Name → Nat) (g : Option Name) (e p : Nat) : Q → List Instr
   | .id => []
   | .const c => [.const c]
   | .pipe a b => let ca := compile entry g e p a; ca ++ compile entry g e (p + ca.length) b
@@ -151,7 +156,7 @@ def compile (entry : Name → Nat) (g : Name) (e p : Nat) : Q → List Instr
       [.append e (p - e), .backtrack, .pop, .load e (p - e)]
   | .param =>
     -- compileFunc, variable case without `$`: load [scope of g, 1]; callpc
-    [.load (entry g) 1, .callpc]
+    [.load (scopeOf entry g) 1, .callpc]
   | .call1 f a =>
     -- compileCallInternal: store v; (compileFuncDef of the argument:) jump L; scope; a; ret;
     -- L: pushpc; load v; call f
@@ -183,7 +188,7 @@ def Prog.defsFn (p : Prog) : Name → Q := fun f => p.defs.getD f .empty
 def compileFunc (entry : Name → Nat) (f : Name) (body : Q) (start : Nat) : List Instr :=
   [.jump (start + body.size + 6), .scope (start+1) (body.size + 4) 1,
    .store (start+1) 0, .store (start+1) 1, .load (start+1) 0] ++
-    compile entry f (start+1) (start+5) body ++ [.ret]
+    compile entry (some f) (start+1) (start+5) body ++ [.ret]
 
 def funcsLen (qs : List Q) : Nat := (qs.map fun q => q.size + 6).sum
 
@@ -198,7 +203,7 @@ def compileFuncs (entry : Name → Nat) : Name → Nat → List Q → List Instr
 def compileProg (p : Prog) : Code :=
   let pmain := 1 + funcsLen p.defs
   [.scope 0 (pmain + p.main.size) 0] ++ compileFuncs (entryOf p.defs) 0 1 p.defs ++
-    compile (entryOf p.defs) 0 0 pmain p.main ++ [.ret]
+    compile (entryOf p.defs) none 0 pmain p.main ++ [.ret]
 
 /-! ## the VM (execute.go) -/
 
